@@ -52,6 +52,14 @@ type KnownFinding struct {
 
 var verifRoot = "/verif"
 
+var (
+	currentTier = "quick"
+	currentSeed int
+)
+
+// reliesOnContracts: callee contracts applied at call sites in this run and where each of them is verified.
+var reliesOnContracts map[string]string
+
 // scratchRoot holds work/ and replays/; it is verifRoot unless --workdir moves it (selftest runs several checks of one
 // property side by side on different trees).
 var scratchRoot = ""
@@ -249,6 +257,7 @@ func cmdCheck(argv []string) int {
 	if s := os.Getenv("VERIF_SEED"); s != "" {
 		seed, _ = strconv.Atoi(s)
 	}
+	currentTier, currentSeed = *tier, seed
 	t0 := time.Now()
 	props := loadProps()
 	pc := props[id]
@@ -347,6 +356,62 @@ func cmdCheck(argv []string) int {
 		underContract = append(underContract, strings.ReplaceAll(full, modulePrefix+"/", ""))
 		runOne(full, ct, false)
 	}
+	// Every contract that was APPLIED at a call site must itself be verified somewhere or be listed as trusted:
+	// a contract that serves no claimed property would otherwise be a silent assumption. Such orphans are verified
+	// here and their obligations count for this property.
+	claimed := map[string]bool{}
+	for k := range props {
+		claimed[k] = true
+	}
+	reliesOn := map[string]string{}
+	for changed := true; changed; {
+		changed = false
+		var used []string
+		for full := range ex.UsedContracts {
+			used = append(used, full)
+		}
+		sort.Strings(used)
+		for _, full := range used {
+			ct := ex.UsedContracts[full]
+			short := strings.ReplaceAll(full, modulePrefix+"/", "")
+			if done[full] {
+				if _, ok := reliesOn[short]; !ok && !ct.Trusted {
+					reliesOn[short] = "verified in this run"
+				}
+				continue
+			}
+			if ct.Trusted {
+				done[full] = true
+				reliesOn[short] = "TRUSTED (assumed, not verified)"
+				trustedContracts = append(trustedContracts, short)
+				continue
+			}
+			var under []string
+			for p := range claimed {
+				if contractServes(ct, p) {
+					under = append(under, p)
+				}
+			}
+			sort.Strings(under)
+			if len(under) > 0 {
+				done[full] = true
+				reliesOn[short] = "verified by the check of " + strings.Join(under, ", ")
+				continue
+			}
+			done[full] = true
+			reliesOn[short] = "orphan contract: verified in this run"
+			underContract = append(underContract, short+" (relied upon, no property of its own)")
+			n0 := len(ex.Obls)
+			runOne(full, ct, false)
+			for _, ob := range ex.Obls[n0:] {
+				if !hasProp(ob.Props, id) {
+					ob.Props = append(append([]string(nil), ob.Props...), id)
+				}
+			}
+			changed = true
+		}
+	}
+	reliesOnContracts = reliesOn
 	for _, lm := range ld.Specs.Lemmas {
 		if hasProp(lm.Props, id) {
 			ex.CheckLemma(lm)
@@ -709,6 +774,7 @@ func writeEvidence(id, tier string, seed int, pc *PropCfg, ld *Loaded, ex *Exec,
 		"path_cap_hit":              ex.pathCap,
 		"unsupported_constructs":    unsup,
 		"untriggered_clauses":       untriggered(ld, ex, id),
+		"relies_on_contracts":       reliesOnContracts,
 		"retried_after_timeout":     Retried,
 		"bounded":                   boundedResults,
 		"dropped_by_translation":    []string{"goroutines (go statements are events; no interleaving)", "channel contents (receives yield arbitrary values)", "termination (partial correctness only)", "map iteration order, time, randomness (nondeterministic values)", "append aliasing (append always allocates a fresh backing array)"},
@@ -745,7 +811,7 @@ func runBounded(repo string, bt BoundedTest, id string) map[string]interface{} {
 	os.WriteFile(ovFile, b, 0o644)
 	cmd := exec.Command("go", "test", "-v", "-overlay", ovFile, "-vet=off", "-count=1", "-timeout", "300s", "-run", bt.Run, "./"+bt.Pkg+"/")
 	cmd.Dir = repo
-	cmd.Env = append(os.Environ(), "GOFLAGS=-mod=mod", "GOPROXY=off", "GOSUMDB=off", "GOTOOLCHAIN=local")
+	cmd.Env = append(os.Environ(), "GOFLAGS=-mod=mod", "GOPROXY=off", "GOSUMDB=off", "GOTOOLCHAIN=local", "VERIF_TIER="+currentTier, fmt.Sprintf("VERIF_SEED=%d", currentSeed))
 	t0 := time.Now()
 	out, err := cmd.CombinedOutput()
 	res["wall_s"] = round3(time.Since(t0).Seconds())
